@@ -382,4 +382,50 @@ theorem validator_injective (v w : ValidatorRec) (hv : VInRange v) (hw : VInRang
 example : VInRange ⟨[1, 2], [9, 9], true, 2, 5, 7, 9⟩ := by
   unfold VInRange; simp
 
+def I64 (x : Int) : Prop := -(2 : Int) ^ 63 ≤ x ∧ x < (2 : Int) ^ 63
+
+theorem toU64_injective (a b : Int) (ha : I64 a) (hb : I64 b) (e : toU64 a = toU64 b) : a = b := by
+  have x := ofU64_toU64 a ha.1 ha.2
+  have y := ofU64_toU64 b hb.1 hb.2
+  rw [e] at x; rw [x] at y; exact y
+
+def SInRange (v : SigningRec) : Prop :=
+  v.addr.length < 2 ^ 64 ∧ I64 v.start ∧ I64 v.offset ∧ I64 v.secs ∧ v.nanos < 2 ^ 64 ∧ I64 v.missed
+
+theorem signingFields_ok (v : SigningRec) (h : SInRange v) : ∀ f ∈ signingFields v, Fld.ok f := by
+  obtain ⟨h1, _, _, _, h5, _⟩ := h
+  have e64 : (2:Nat) ^ 64 = 18446744073709551616 := by decide
+  have b2 := encodeTime_length_le v.secs v.nanos h5
+  intro f hf
+  simp only [signingFields, List.mem_cons, List.not_mem_nil, or_false] at hf
+  rcases hf with rfl | rfl | rfl | rfl | rfl | rfl
+  · exact h1
+  · exact toU64_lt _
+  · exact toU64_lt _
+  · show (encodeTime v.secs v.nanos).length < 2 ^ 64; omega
+  · show (if v.tombstoned then 1 else 0) < 2 ^ 64; split <;> omega
+  · exact toU64_lt _
+
+/-- two signing-info records with the same stored bytes are the same record -/
+theorem signing_injective (v w : SigningRec) (hv : SInRange v) (hw : SInRange w)
+    (e : encodeSigning v = encodeSigning w) : v = w := by
+  have hfs := encodeStruct_injective 1 (signingFields v) (signingFields w) rfl (by simp [signingFields])
+    (signingFields_ok v hv) (signingFields_ok w hw) e
+  simp only [signingFields, List.cons.injEq, Fld.bytes.injEq, Fld.uint.injEq, and_true] at hfs
+  obtain ⟨e1, e2, e3, e4, e5, e6⟩ := hfs
+  obtain ⟨_, a1, a2, a3, a4, a5⟩ := hv
+  obtain ⟨_, b1, b2, b3, b4, b5⟩ := hw
+  have et := encodeTime_injective v.secs w.secs v.nanos w.nanos ⟨a3.1, a3.2, a4⟩ ⟨b3.1, b3.2, b4⟩ e4
+  have s1 := toU64_injective _ _ a1 b1 e2
+  have s2 := toU64_injective _ _ a2 b2 e3
+  have s3 := toU64_injective _ _ a5 b5 e6
+  obtain ⟨x1, x2, x3, x4, x5, x6, x7⟩ := v
+  obtain ⟨y1, y2, y3, y4, y5, y6, y7⟩ := w
+  simp only at e1 e5 et s1 s2 s3
+  have ej : x6 = y6 := by
+    cases x6 <;> cases y6 <;> simp at e5 <;> rfl
+  obtain ⟨ec, en⟩ := et
+  subst e1 s1 s2 s3 ej ec en
+  rfl
+
 end Posmint.Props.C20
